@@ -367,6 +367,13 @@ func (h *hist) encode(p *txPlan) ([]byte, []byte, []byte) {
 	return bz, bodyBz, aiBz
 }
 
+func short(s string) string {
+	if len(s) > 160 {
+		return s[:160]
+	}
+	return s
+}
+
 func feeOf(p *txPlan) int64 {
 	if p.fee > 0 {
 		return p.fee
@@ -1087,6 +1094,9 @@ func main() {
 					if c.url == sc.TypeURL && ((!c.aminoOK && sc.Mode == "amino") || (!c.eipOK && sc.Mode == "eip712")) {
 						sc.Mode = "direct"
 					}
+					if c.url == sc.TypeURL && !c.aminoOK && sc.Mode == "multi-amino" {
+						sc.Mode = "multi-direct"
+					}
 				}
 			}
 		}
@@ -1199,7 +1209,7 @@ func main() {
 			accs = append(accs, map[string]interface{}{"name": a.name, "id": h.addr(a.addr), "addr": a.addr.String(), "style": a.style, "state": a.state})
 		}
 		js = append(js, jhist{Scenario: sc, Kind: kind, Keys: map[string]string{"A": h.keys[0].seed, "B": h.keys[1].seed, "attacker": kX.seed, "ed25519": kE.seed}, Accounts: accs, Steps: h.jsteps, Accepted: accepted,
-			CheckTx: map[string]interface{}{"code": cres.Code, "log": cres.Log, "panic": cpn, "tx_hex": hex.EncodeToString(checkBz)}})
+			CheckTx: map[string]interface{}{"code": cres.Code, "log": short(cres.Log), "panic": cpn, "tx_hex": hex.EncodeToString(checkBz)}})
 		dist.Inc("first:" + kind)
 		dist.Inc(fmt.Sprintf("checktx-class:%d", h.check))
 		dist.Inc("msg:" + sc.Msg)
